@@ -28,6 +28,7 @@ sub!(c11, "c11.rs");
 sub!(c12, "c12.rs");
 sub!(c05, "c05.rs");
 sub!(c03, "c03.rs");
+sub!(c09, "c09.rs");
 
 pub async fn main() -> Result<(), easy_error::Terminator> {
     let args: Vec<String> = std::env::args().collect();
@@ -44,6 +45,7 @@ pub async fn main() -> Result<(), easy_error::Terminator> {
         "c12" => c12::run(&mut out).await,
         "c05" => c05::run(&mut out).await,
         "c03" => c03::run(&mut out).await,
+        "c09" => c09::run(&mut out).await,
         _ => {
             eprintln!("unknown mode {}", mode);
             std::process::exit(2);
